@@ -14,6 +14,9 @@ typedef unsigned long V_limb;
 /* ghost position(s) chosen by the caller / harness before a call, and ghost carries */
 long   gk;            /* position inside the operand, 0 <= gk < n */
 V_limb g_ci, g_co;    /* carry/borrow at the head of iteration gk and gk+1 (== return at gk == n-1) */
+static const V_limb g_zero = 0; /* never assigned: reads as 0; target of V_OLDSEL when the position does not exist */
+/* value *(p) had on entry if c held on entry, else 0 */
+#define V_OLDSEL(c,p) __CPROVER_old (*((c) ? (p) : (const V_limb *) &g_zero))
 long   gj;            /* second ghost position (order facts, "all above are equal/zero") */
 
 long   nondet_long (void);
